@@ -144,6 +144,42 @@ CHECKS.update({
                      "input, not enumerated."),
 })
 
+E4_NOTE = ("Trusted base: harness; Gurobi / z3 as evaluators of *fully fixed* decision "
+           "points (objective zeroed), arithmetic row evaluation for the CPLEX "
+           "formulation; the scheduler's own read-back decodes every point; the plan "
+           "returned by the unmodified schedule() must be located among the enumerated "
+           "feasible points (binding). Bounded: <=3 (4) tasks, <=2 workers, horizon "
+           "<= 9 slots.")
+
+CHECKS.update({
+    "C10": dict(engine="E4+E1", technique="enumeration of mixed-state scheduler inputs "
+                "through the real schedule() of every policy + decision-space "
+                "enumeration of the captured models + decision contract on every "
+                "schedule() call of explored simulations",
+                text="Returns normally; <=1 decision per task; only offered / own "
+                     "scheduled, not started tasks; every offered task answered; "
+                     "pool/worker/strategy valid; time >= now and release; joint "
+                     "capacity feasibility at all planned instants (pool-level: some "
+                     "worker assignment, brute force), also on every feasible model "
+                     "point; live state untouched.", ref="5/C10",
+                note=E4_NOTE + " " + E1_NOTE),
+    "C11": dict(engine="E4", technique="decision-space enumeration of the captured ILP / "
+                "TetriSched-Gurobi / z3 models (every point fixed and evaluated), "
+                "precedence oracle on every decoded feasible point",
+                text="Every feasible point: placed task => in-model predecessors "
+                     "placed; start >= predecessor start + chosen / worst-case runtime; "
+                     ">= expected finish of running / scheduled predecessors.",
+                ref="5/C11", note=E4_NOTE),
+    "C12": dict(engine="E4+E1", technique="decision-space enumeration of the captured ILP "
+                "/ TetriSched models over deadline classes + direct admission checks + "
+                "run exploration (E1)",
+                text="Hopeless tasks cancelled (EDF, FIFO, TetriSched-CPLEX) or left "
+                     "unplaced (ILP task-by-task, TetriSched-Gurobi), nothing else "
+                     "cancelled; start + chosen runtime <= deadline on every feasible "
+                     "point; planner runs with exact runtimes finish every task by its "
+                     "deadline.", ref="5/C12", note=E4_NOTE + " " + E1_NOTE),
+})
+
 NOT_YET = {}
 
 
@@ -203,6 +239,9 @@ def main():
 
 
 ENGINES = [
+    {"name": "E4", "path": "vf/e4.py", "serves_properties": ["C10", "C11", "C12", "C14"],
+     "kind_free_text": "decision-space enumeration of the optimisation model captured "
+                       "inside the real schedule() call"},
     {"name": "E6", "path": "vf/checks/c09.py", "serves_properties": ["C09"],
      "kind_free_text": "fresh-process determinism harness (hash seed, clock skew)"},
     {"name": "E2", "path": "vf/checks/c04.py", "serves_properties": ["C04", "C16", "C18"],
